@@ -109,6 +109,9 @@ var ledgerSpecs = []ledgerSpec{
 			{"two-nodes+overdraw+truncate", ledger.Cfg{Nodes: []string{"G", "N1"}, Supply: sp(10, 0), Menu: []ledger.TxSpec{t1, t2, t3}, Crafted: []ledger.TxSpec{mx}, Truncate: true, Props: only("C01")}, d, 0, 0},
 			{"trusted-sealer", ledger.Cfg{Nodes: []string{"G"}, Supply: sp(10, 0), Menu: []ledger.TxSpec{t1, t3}, Crafted: []ledger.TxSpec{mx}, TrustedCraf: []ledger.TxSpec{my}, Props: only("C01")}, d, 0, 0},
 			{"carry-borrow-amounts", ledger.Cfg{Nodes: []string{"G"}, Supply: sp(1, 0), Menu: []ledger.TxSpec{t6, t7, tx("t7b", "R", "A", 0, 2)}, Props: only("C01")}, d, 0, 0},
+			// a crafted vertex built on the node's tips arrives in a call whose caller goes away, over an overdrawing tentative tip
+			{"cancelled-delivery-over-overdrawing-tip", ledger.Cfg{Nodes: []string{"G"}, Supply: sp(10, 0), Menu: []ledger.TxSpec{t1, t3, tx("t3b", "A", "B", 5, 0)},
+				Crafted: []ledger.TxSpec{cfl("xf")}, DeliverCancel: []int{0, 1, 2, 3}, Props: only("C01")}, d - 1, 0, 0},
 			{"after-truncation", ledger.Cfg{Nodes: []string{"G"}, Supply: sp(10, 0), Menu: []ledger.TxSpec{t3, t4, t2}, Crafted: []ledger.TxSpec{mx}, Truncate: true, Prefix: []string{"P:0:p1", "P:0:p2", "P:0:p3"}, Props: only("C01")}, d, 0, 0},
 		},
 			ledgerRun{"three-nodes+overdraw+truncate", ledger.Cfg{Nodes: three, Supply: sp(10, 0), Menu: []ledger.TxSpec{t1, t2, t3}, Crafted: []ledger.TxSpec{mx}, Truncate: true, MaxProposeNodes: 1, Props: only("C01")}, 8, 0, 0},
@@ -146,6 +149,10 @@ var ledgerSpecs = []ledgerSpec{
 			{"checkpointed-income+live-spend", ledger.Cfg{Nodes: []string{"G"}, Supply: sp(10, 0), Menu: []ledger.TxSpec{tx("tz2", "A", "B", 6, 0), tx("tz3", "A", "B", 1, 0), cfl2("c7"), cfl2("c8")},
 				Hidden: []ledger.TxSpec{t1, tx("tz", "A", "B", 6, 0), cfl2("c4")}, Truncate: true,
 				Prefix: []string{"P:0:t1", "P:0:c1", "P:0:c2", "P:0:c3", "T:0", "P:0:tz", "P:0:c4"}, Props: only("C02")}, 4, 0, 0},
+			// a vertex of an outside sealer built on the node's tips reaches the node in a call whose caller goes away (context
+			// cancelled from the k-th poll on) while an overdrawing tentative tip awaits its verdict (A holds 6, spends 5 twice)
+			{"cancelled-delivery-over-overdrawing-tip", ledger.Cfg{Nodes: []string{"G"}, Supply: sp(10, 0), Menu: []ledger.TxSpec{t1, t3, tx("t3b", "A", "B", 5, 0)},
+				Crafted: []ledger.TxSpec{cfl2("xf")}, DeliverCancel: []int{0, 1, 2, 3}, Props: only("C02")}, d - 1, 0, 0},
 			// a wallet pays itself: the amount is income and spending at once (A holds 6, pays itself 5, then tries to pay 9)
 			{"self-payment", ledger.Cfg{Nodes: []string{"G"}, Supply: sp(10, 0), Menu: []ledger.TxSpec{t1, tx("sp5", "A", "A", 5, 0), tx("sb9", "A", "B", 9, 0), tx("sp20", "B", "B", 20, 0), t7}, Props: only("C02")}, d, 0, 0},
 		}
